@@ -409,8 +409,10 @@ func c02KeyInstall(c *Ctx, p *Prog) {
 			var parser *ssa.Call
 			for v := range seedSl.Seen {
 				if ex, ok := v.(*ssa.Extract); ok {
-					if pc, ok := ex.Tuple.(*ssa.Call); ok && pc.Common().StaticCallee() != nil && p.inModule(pc.Common().StaticCallee()) {
-						parser = pc
+					if pc, ok := ex.Tuple.(*ssa.Call); ok && pc.Parent() == s.Fn && pc.Common().StaticCallee() != nil && p.inModule(pc.Common().StaticCallee()) {
+						if parser == nil || pc.Pos() > parser.Pos() {
+							parser = pc
+						}
 					}
 				}
 			}
